@@ -189,6 +189,33 @@ func TestC16_JWKRoundTrip(t *testing.T) {
 				label = "swapped"
 			}
 		}
+		// optional JWK members (alg, kid, use) change nothing about which curve the point has to be on
+		{
+			raw := func(jw *jws.JWK, alg string) []byte {
+				m := map[string]interface{}{"kty": jw.Kty, "crv": jw.Crv, "x": jw.X, "alg": alg, "kid": "k", "use": "sig"}
+				if jw.Y != "" {
+					m["y"] = jw.Y
+				}
+				return []byte(refJCS(m))
+			}
+			var withAlg jwsutil.JWK
+			if err := withAlg.UnmarshalJSON(raw(j, kt.Alg())); err != nil {
+				t.Fatalf("C16 %s: valid JWK with alg/kid/use members refused: %v", k.Name, err)
+			}
+			if mustReject {
+				for _, a := range []string{kt.Alg(), "ES256K", "ES256", "EdDSA"} {
+					var b jwsutil.JWK
+					if err := b.UnmarshalJSON(raw(&bad, a)); err == nil {
+						if kt == ktEd25519 {
+							if _, gerr := jwsutil.GetED25519PublicKey(&bad); gerr != nil {
+								continue
+							}
+						}
+						t.Fatalf("C16 %s: modified JWK (%s) accepted when it carries \"alg\":%q: %s", k.Name, label, a, raw(&bad, a))
+					}
+				}
+			}
+		}
 		// readers used for verification must refuse it as well, also right after the valid key was used
 		{
 			msg := []byte("C16 verification message")
